@@ -569,5 +569,74 @@ theorem orbit_def (hs : SqrtSpec K) (Om inc om : K) :
   simp only [orbit, angleAxis_def, normalize_ez hs, normalize_ex hs]
   simp [ez, ex]
 
+
+/-! ### to_new_axes -/
+
+theorem normalize_of_unit (hs : SqrtSpec K) (v : V3 K) (h : len2 v = 1) : normalize v = v := by
+  rw [normalize_def, h, sqrt_one hs]
+  ext <;> simp
+
+theorem dot_normalize_left (v w : V3 K) :
+    dot (normalize v) w = 1 / RealFns.sqrt (len2 v) * dot v w := by
+  rw [normalize_def]; simp only [dot, sc_hadd, sc_hmul]; ring
+
+/-- normalisation commutes with a unit rotation -/
+theorem normalize_rotate (v : V3 K) (q : Quat K) (hq : qlen2 q = 1) :
+    normalize (rotate v q) = rotate (normalize v) q := by
+  have hl : len2 (rotate v q) = len2 v := by
+    have := rotate_dot_general v v q
+    rw [hq] at this; simpa [len2] using this
+  rw [normalize_def, normalize_def, hl]
+  have : (⟨1 / RealFns.sqrt (len2 v) * v.x, 1 / RealFns.sqrt (len2 v) * v.y,
+      1 / RealFns.sqrt (len2 v) * v.z⟩ : V3 K) = vmul v (1 / RealFns.sqrt (len2 v)) := by
+    ext <;> simp [vmul]
+  rw [this, rotate_smul]
+  ext <;> simp [vmul]
+
+/-- the reduced quaternion `(f × h, f · h)` fixes every vector orthogonal to `f` and `h` -/
+theorem redq_fixes (f h w : V3 K) (hfw : dot f w = 0) (hhw : dot h w = 0) :
+    rotate w (redq f h) = w := by
+  simp only [dot, sc_hadd, sc_hmul] at hfw hhw
+  ext <;> simp only [rotate, redq, cross, dot, vadd, vmul, imag, two_eq, sc_hadd, sc_hsub, sc_hmul]
+  · linear_combination (2 * (f.x * h.x + f.y * h.y + f.z * h.z) * h.x + 2 * ((f.z * h.x - f.x * h.z) * h.z - (f.x * h.y - f.y * h.x) * h.y)) * hfw
+      + (-2 * (f.x * h.x + f.y * h.y + f.z * h.z) * f.x - 2 * ((f.z * h.x - f.x * h.z) * f.z - (f.x * h.y - f.y * h.x) * f.y)) * hhw
+  · linear_combination (2 * (f.x * h.x + f.y * h.y + f.z * h.z) * h.y + 2 * ((f.x * h.y - f.y * h.x) * h.x - (f.y * h.z - f.z * h.y) * h.z)) * hfw
+      + (-2 * (f.x * h.x + f.y * h.y + f.z * h.z) * f.y - 2 * ((f.x * h.y - f.y * h.x) * f.x - (f.y * h.z - f.z * h.y) * f.z)) * hhw
+  · linear_combination (2 * (f.x * h.x + f.y * h.y + f.z * h.z) * h.z + 2 * ((f.y * h.z - f.z * h.y) * h.y - (f.z * h.x - f.x * h.z) * h.x)) * hfw
+      + (-2 * (f.x * h.x + f.y * h.y + f.z * h.z) * f.z - 2 * ((f.y * h.z - f.z * h.y) * f.y - (f.z * h.x - f.x * h.z) * f.x)) * hhw
+
+theorem fromToReduced_fixes (f t w : V3 K) (hfw : dot f w = 0) (htw : dot t w = 0) :
+    rotate w (fromToReduced f t) = w := by
+  rw [fromToReduced_def]
+  apply redq_fixes f _ w hfw
+  rw [dot_normalize_left]
+  have : dot (vadd f t) w = dot f w + dot t w := by
+    simp only [dot, vadd, sc_hadd, sc_hmul]; ring
+  rw [this, hfw, htw]; ring
+
+/-- outside the antiparallel branch the from-to rotation fixes every vector orthogonal to both -/
+theorem fromToUnit_fixes (hs : SqrtSpec K) (anti : V3 K → Quat K) (f t w : V3 K)
+    (hf : len2 f = 1) (ht : len2 t = 1) (hne : len2 (vadd f t) ≠ 0)
+    (hfw : dot f w = 0) (htw : dot t w = 0) :
+    rotate w (fromToUnit anti f t) = w := by
+  rcases le_or_gt 0 (dot f t) with hd | hd
+  · rw [fromToUnit_acute anti f t hd]; exact fromToReduced_fixes f t w hfw htw
+  · obtain ⟨hh, hdd, hpos, hcc⟩ := half_props hs f t hf ht hne
+    have hn : len2 (normalize (vadd f t)) ≠ 0 := by rw [hh]; exact one_ne_zero
+    rw [fromToUnit_two_stage anti f t hd hn]
+    have hhw : dot (normalize (vadd f t)) w = 0 := by
+      rw [dot_normalize_left]
+      have : dot (vadd f t) w = dot f w + dot t w := by
+        simp only [dot, vadd, sc_hadd, sc_hmul]; ring
+      rw [this, hfw, htw]; ring
+    set h := normalize (vadd f t) with hdef
+    have hfh : len2 (vadd f h) ≠ 0 := by
+      rw [len2_vadd, hf, hh]; intro h0; linarith
+    have hht : len2 (vadd h t) ≠ 0 := by
+      rw [len2_vadd, hh, ht, ← hdd]; intro h0; linarith
+    obtain ⟨a1, _⟩ := reduced_spec hs f h hf hh hfh
+    obtain ⟨b1, _⟩ := reduced_spec hs h t hh ht hht
+    rw [rotate_mul _ _ _ a1 b1, fromToReduced_fixes h t w hhw htw, fromToReduced_fixes f h w hfw hhw]
+
 end Ordered
 end RV.Rot
